@@ -141,6 +141,17 @@ func OneOf(name string, vals ...string) string {
 	}
 	return vals[i]
 }
+// OneOfInt64: a value from a finite pool, chosen by the solver.
+func OneOfInt64(name string, vals ...int64) int64 {
+	if len(vals) == 1 {
+		return vals[0]
+	}
+	i := int(Int64(name))
+	if i < 0 || i >= len(vals) {
+		return vals[0]
+	}
+	return vals[i]
+}
 func Duration(name string) time.Duration { return time.Duration(Int64(name)) }
 func Time(name string) time.Time         { return time.Unix(0, Int64(name)).UTC() }
 
